@@ -70,7 +70,7 @@ FIRE = [
     ("sampling-roundtrip-bit-order", "C01", [(BACK, "xk.append(int(k[::-1], 2))", "xk.append(int(k, 2))")], "K10.bit-order"),
     ("sympy-ry-sign", "C01", [(TSYM, "ry_matrix = ImmutableMatrix([[cos_term, -sin_term], [sin_term, cos_term]])", "ry_matrix = ImmutableMatrix([[cos_term, sin_term], [-sin_term, cos_term]])")], "K9.sympy-gates"),
     ("cirq-table-cy-is-z", "C01", [(TCIRQ, '    GATE_CIRQ["CY"] = cirq.Y', '    GATE_CIRQ["CY"] = cirq.Z')], "K9.cirq-units"),
-    ("sampler-loses-exact-multiples", "C01", [(BACK, "            n_chunks = self.n_shots // chunk_size\n            freqs_shots = Counter()\n            for i in range(n_chunks+1):\n                this_chunk = self.n_shots % chunk_size if i == n_chunks else chunk_size",
+    ("sampler-loses-exact-multiples", "C01", [(BACK, "            n_chunks = self.n_shots // chunk_size\n            freqs_shots = Counter()\n\n            for i in range(n_chunks+1):\n                this_chunk = self.n_shots % chunk_size if i == n_chunks else chunk_size",
                                               "            n_chunks = max(1, self.n_shots // chunk_size)\n            freqs_shots = Counter()\n            for i in range(n_chunks):\n                this_chunk = self.n_shots % chunk_size if i == n_chunks - 1 else chunk_size")], "K9.shot-conservation"),
     # ---- C02
     ("parity-uses-or", "C02", [(BACK, "        sample = (-1) ** ((bitarray(mask) & bitarray(basis_state)).to01().count(\"1\") % 2)\n        expectation_term += sample * freq",
